@@ -1,6 +1,6 @@
 (* Proofs about the JSON encoders (C10). *)
 From Coq Require Import String Ascii List Bool NArith ZArith Lia.
-Require Import PyStr PyInt Sexp Xml M_C09 M_C08 M_C10.
+Require Import PyStr PyInt Sexp Xml M_C09 M_C08 M_C10 M_C10r.
 Import ListNotations.
 Open Scope char_scope.
 
@@ -47,14 +47,6 @@ Proof.
   unfold iso_utc, z2. repeat (rewrite all_chars_app || cbn [all_chars] || rewrite pad_jsafe). reflexivity.
 Qed.
 
-Definition dom10 (v : uav) : bool :=
-  match v with
-  | VInt k (Some _) => negb (is64 k)
-  | VDateTime d => dt_in_range d
-  | VNodeId n => match nid_type n with Numeric => true | _ => json_safe (nid_value n) end
-  | VExtObj _ _ | VList _ _ | VXmlTree _ | VNone => false
-  | _ => true
-  end.
 Lemma app_cons_assoc {A} (a : list A) x b : a ++ x :: b = (a ++ [x]) ++ b.
 Proof. now rewrite <- app_assoc. Qed.
 Ltac jkeys :=
@@ -111,4 +103,20 @@ Proof. reflexivity. Qed.
 Theorem int64_via_float_refuted :
   json_encode [(lit "i2f:9007199254740993", Some (lit "9007199254740992.0"))] (VInt KInt64 (Some 9007199254740993%Z))
   = Ok (Some (lit """9007199254740992.0""")).
+Proof. reflexivity. Qed.
+
+(* extension objects: TypeId, Body and the Encoding number of the body's kind (1 = ByteString, 2 = XmlElement) *)
+Lemma nodeid_shape_print n : nid_dom n = true -> json_nodeid n = jprint (shape_nodeid n).
+Proof.
+  intros HD. pose proof (json_encode_shape [] (VNodeId n)) as H. cbn [dom10 json_encode shape omap] in H. specialize (H HD). congruence.
+Qed.
+Theorem json_ext_shape E tid body j : nid_dom tid = true -> shape_ext tid body = Some j ->
+  json_encode E (VExtObj tid body) = Ok (Some (jprint j)).
+Proof.
+  intros Hn Hs. destruct body; cbn [shape_ext] in Hs; try discriminate.
+  - destruct b as [b|]; [|discriminate]. injection Hs as <-. cbn [json_encode rbind omap]. rewrite (nodeid_shape_print tid Hn). f_equal. f_equal. jfin.
+  - injection Hs as <-. cbn [json_encode rbind]. rewrite (nodeid_shape_print tid Hn). f_equal. f_equal. jfin.
+Qed.
+(* a null ByteString body: the whole extension object is null *)
+Theorem json_ext_null E tid : json_encode E (VExtObj tid (VByteString None)) = Ok (Some (lit "null")).
 Proof. reflexivity. Qed.
